@@ -170,6 +170,7 @@ def _model_opts(o, query_item_filter=None):
     m = {k: o[k] for k in BOOL_OPTS if k != "infer_redirection"}
     m["strip_fragment"] = o["strip_fragment"] if isinstance(o["strip_fragment"], bool) else "except-routing"
     m["quoted"] = o["quoted"]
+    m["lowercase"] = bool(o.get("lowercase", False))
     m["query_item_filter"] = query_item_filter
     return m
 
@@ -265,7 +266,7 @@ def fp_ops(url, strip_suffix=False, platform_aware=False):
     # the accessor results / walk start of the *real* intermediates, keyed by the intermediate
     # (the model must arrive at the same key, else the lookup fails and the outputs differ)
     try:
-        t = normalize_url(low, unsplit=False, query_item_filter=lang_query_item_filter, platform_aware=platform_aware)
+        t = normalize_url(low, unsplit=False, query_item_filter=lang_query_item_filter, platform_aware=platform_aware, lowercase=True)
     except Exception:  # noqa
         t = None
     if t is not None and not isinstance(t, str):
@@ -313,14 +314,17 @@ def normalize_hostname_impl(h, normalize_amp=True):
     return lib.guarded(normalize_hostname, h, normalize_amp=normalize_amp)
 
 
-def _host_of(url, infer):
-    """(string the helper parses, its hostname or None)"""
+def _host_of(url, infer, lower=False):
+    """(string the helper parses, its hostname or None); `lower`: get_fingerprinted_hostname
+    lower-cases the url first"""
     from ural.ensure_protocol import ensure_protocol
     from ural.infer_redirection import infer_redirection as resolve
     from urllib.parse import urlsplit
 
     from ural.patterns import CONTROL_CHARS_RE
 
+    if lower:
+        url = url.lower()
     u = resolve(url) if infer else url
     s = ensure_protocol(CONTROL_CHARS_RE.sub("", u).strip())
     try:
@@ -370,7 +374,7 @@ def get_fingerprinted_hostname_op(url, infer_redirection=True, strip_suffix=Fals
     from ural.normalize_url import normalize_hostname
     from ural.fingerprint_url import strip_lang_subdomains_from_hostname
 
-    s, h = _host_of(url, infer_redirection)
+    s, h = _host_of(url, infer_redirection, lower=True)
     line = {"f": "get_fingerprinted_hostname", "url": url, "infer_redirection": infer_redirection,
             "strip_suffix": strip_suffix, "host": h, "puny": _host_puny(h or ""), "walk": {}}
     if strip_suffix:
@@ -388,7 +392,7 @@ def get_fingerprinted_hostname_impl(url, infer_redirection=True, strip_suffix=Fa
     from ural.fingerprint_url import get_fingerprinted_hostname
 
     def run():
-        s, _ = _host_of(url, infer_redirection)
+        s, _ = _host_of(url, infer_redirection, lower=True)
         return [s, get_fingerprinted_hostname(url, infer_redirection=infer_redirection, strip_suffix=strip_suffix)]
 
     return lib.guarded(run)
